@@ -186,7 +186,7 @@ static void build_universal() {
   }
   // extremes of the floating point formats
   mpq_class fmax(std::numeric_limits<float>::max()), dmax(std::numeric_limits<double>::max());
-  mpq_class fulp = q2(1, -104), dulp = q2(1, -971);   // ulp at max
+  mpq_class fulp(pow2(104)), dulp(pow2(971));   // ulp at max
   U.push_back(fmax); U.push_back(-fmax); U.push_back(fmax + fulp / 2); U.push_back(fmax + fulp / 4); U.push_back(mpq_class(pow2(128))); U.push_back(-mpq_class(pow2(128)) - 1);
   U.push_back(dmax); U.push_back(-dmax); U.push_back(dmax + dulp / 2); U.push_back(dmax + 1); U.push_back(mpq_class(pow2(1024))); U.push_back(-mpq_class(pow2(1030)));
   U.push_back(q2(1, 149)); U.push_back(q2(1, 150)); U.push_back(q2(3, 151)); U.push_back(q2(-1, 149)); U.push_back(q2(1, 126)); U.push_back(q2(pow2(24) - 1, 149 + 0));
@@ -314,7 +314,10 @@ static void conv_values(const std::vector<From>& vals, const std::vector<XV>& xs
       const char* why = oracle(ti, (unsigned)r, dir, xs[i], s);
       if (why) {
         std::ostringstream g; g << show(s) << " " << (unsigned)r;
-        fail("conv", std::string("assign") + tag, NT<To>::name(), NT<From>::name(), "other", dir, show(xs[i]), g.str(), why);
+        // a floating point source equal to max+1 of an integer destination wider than the source's mantissa
+        const char* cls = (NT<To>::is_int && NT<From>::is_float && NT<To>::bits > NT<From>::mant && xs[i].kind == 0 && xs[i].q == ti.hi + 1)
+          ? "float-source-equals-int-max+1" : "other";
+        fail("conv", std::string("assign") + tag, NT<To>::name(), NT<From>::name(), cls, dir, show(xs[i]), g.str(), why);
       }
     }
   }
@@ -371,7 +374,7 @@ static bool exact_arith(AOp op, bool is_float, bool integral, const XV& a, const
   case A_TRUNC: out = a.kind ? a : XV(trunc_q(a.q)); return true;
   case A_SQRT:
     if (a.kind == 1) { out = XV(1); return true; }
-    if (a.kind == -1 || a.q < 0) { if (!is_float) return false; out = XV(2); return true; }
+    if (a.kind == -1 || a.q < 0) return false;      // check_sqrt_neg is off: the caller guarantees a non-negative operand
     out = XV(a.q); out.kind = 3; if (a.q == 0) out.kind = 0; return true;
   case A_ADD: return add_xv(a, b, out);
   case A_SUB: return add_xv(a, neg_xv(b), out);
@@ -391,6 +394,9 @@ static bool exact_arith(AOp op, bool is_float, bool integral, const XV& a, const
     { mpq_class q = trunc_q(a.q / b.q); out = XV(mpq_class(a.q - b.q * q)); }
     return true;
   case A_ADD_MUL: case A_SUB_MUL: {
+    // floating point: the product is rounded on its own (no fused multiply-add on this platform) and the source
+    // itself notes "FIXME: missing check_inf_add_inf": an infinite accumulator is outside what the code handles
+    if (is_float && c.kind != 0) return false;
     XV p; if (!mul_xv(a, b, p)) return false;
     if (op == A_SUB_MUL) p = neg_xv(p);
     return add_xv(c, p, out); }
@@ -400,7 +406,7 @@ static bool exact_arith(AOp op, bool is_float, bool integral, const XV& a, const
   case A_DIV_2EXP: if (a.kind) { out = a; return true; } out = XV(mpq_class(a.q / two_e)); return true;
   case A_SMOD_2EXP: case A_UMOD_2EXP: {
     if (a.kind) return false;
-    if (op == A_SMOD_2EXP && e == 0 && !is_float) { /* well defined for gmp: residue in [-1/2,1/2) */ }
+    if (op == A_SMOD_2EXP && e == 0) return false;   // "modulo 2^0 in [-2^-1, 2^-1)": undefined shift for integers, division by zero in smod_2exp_mpq
     mpq_class u = a.q - two_e * floor_q(a.q / two_e);
     if (op == A_SMOD_2EXP && u >= two_e / 2) u -= two_e;
     out = XV(u); return true; }
@@ -458,7 +464,9 @@ static void arith_one(AOp op, unsigned dir, size_t i, size_t j, size_t k, unsign
   if (why) {
     std::ostringstream o, g; o << show(X[i]); if (ar == 2 || ar == 3) o << " " << show(X[j]); if (ar == 3) o << " to=" << show(X[k]); if (ar == 4) o << " exp=" << e;
     g << show(s) << " " << (unsigned)r;
-    fail("arith", aop_name[op], NT<T>::name(), NT<T>::name(), "other", dir, o.str(), g.str(), why);
+    const char* cls = "other";
+    if (op == A_SQRT && NT<T>::is_gmp && NT<T>::name()[2] == 'q' && X[i].kind == 0 && (X[i].q < 1 || (dir & 7u) == 6u)) cls = "mpq-sqrt-relation";
+    fail("arith", aop_name[op], NT<T>::name(), NT<T>::name(), cls, dir, o.str(), g.str(), why);
   }
 }
 
@@ -490,13 +498,36 @@ static int cmp_xv(const XV& a, const XV& b) {   // both non-nan
   return cmp(a.q, b.q);
 }
 static int cmp_ext_xv(const XV& a, const XV& b) {
-  if (a.kind == 0 && b.kind == 0) return cmp(a.q, b.q);
+  if (a.kind == 0 && b.kind == 0) { int c = cmp(a.q, b.q); return c < 0 ? -1 : c > 0 ? 1 : 0; }
   if (a.kind == b.kind) return 0;
   if (a.kind == 1 || b.kind == -1) return 1;
   return -1;
 }
 
-template <typename T1, typename T2> static const char* cmp_class(const XV& a, const XV& b) {
+template <typename T> static bool is_special_encoding(const XV& v) {
+  // the values an integer type uses to encode +inf, -inf, NaN under a policy with has_infinity / has_nan
+  if (!NT<T>::is_int || v.kind != 0) return false;
+  ToInfo ti = to_info<T>();
+  if (NT<T>::sgn) return v.q == ti.hi || v.q == ti.lo || v.q == ti.lo + 1;
+  return v.q == ti.hi || v.q == ti.hi - 1 || v.q == ti.hi - 2;
+}
+template <typename T1, typename T2> static const char* cmp_class(const std::string& entry, const XV& a, const XV& b) {
+  bool g = entry.find("greater") != std::string::npos || entry.find("operator>") != std::string::npos;
+  if (a.kind == 2 || b.kind == 2) {
+    // less_than / less_or_equal (and operator< / <=) of an integer too wide for the float's mantissa against a float NaN;
+    // greater_than(x, y) is lt_ext(y, x): the same defect with the operands exchanged
+    bool l = entry.find("less") != std::string::npos || entry.find("operator<") != std::string::npos;
+    if (l && NT<T1>::is_int && NT<T2>::is_float && NT<T1>::bits > NT<T2>::mant && b.kind == 2) return "less-wide-int-vs-float-nan";
+    if (g && ((NT<T1>::is_float && is_special_encoding<T2>(b)) || (NT<T2>::is_float && is_special_encoding<T1>(a))))
+      return "greater-with-int-equal-to-a-special-encoding";
+    if (g && NT<T2>::is_int && NT<T1>::is_float && NT<T2>::bits > NT<T1>::mant && a.kind == 2) return "less-wide-int-vs-float-nan";
+    return "nan-operand";
+  }
+  // a floating point operand equal to max+1 of the integer operand's type (the conversion defect conv/float-source-equals-int-max+1)
+  if (NT<T1>::is_int && NT<T2>::is_float && NT<T1>::bits > NT<T2>::mant && b.kind == 0 && b.q == to_info<T1>().hi + 1) return "float-equals-int-max+1";
+  if (NT<T2>::is_int && NT<T1>::is_float && NT<T2>::bits > NT<T1>::mant && a.kind == 0 && a.q == to_info<T2>().hi + 1) return "float-equals-int-max+1";
+  if (g && ((NT<T1>::is_float && is_special_encoding<T2>(b)) || (NT<T2>::is_float && is_special_encoding<T1>(a))))
+    return "greater-with-int-equal-to-a-special-encoding";
   // the pairs (floating type, integer type wider than its mantissa) where the integer is not representable in the
   // floating type go through an FPU inexact-flag test
   if (NT<T1>::is_float && NT<T2>::is_int && NT<T2>::bits > NT<T1>::mant && !representable_in_float_type<T1>(b, NT<T1>::mant)) return "float-vs-wide-int-not-representable";
@@ -506,10 +537,13 @@ template <typename T1, typename T2> static const char* cmp_class(const XV& a, co
 
 // cmp() is specialised for operands of the same type only
 template <typename T1, typename T2> struct Cmp3 { static bool run(const T1&, const T2&, int&) { return false; } };
-template <typename T> struct Cmp3<T, T> { static bool run(const T& x, const T& y, int& g) { g = cmp(x, y); return true; } };
+template <typename T> struct Cmp3<T, T> { static bool run(const T& x, const T& y, int& g) { g = Parma_Polyhedra_Library::cmp(x, y); g = g < 0 ? -1 : g > 0 ? 1 : 0; return true; } };
 
 template <typename T1, typename T2>
 static void cmp_one(const T1& x, const XV& a, const T2& y, const XV& b) {
+  // a floating point infinity / NaN against a native GMP number: the generic `x < y' converts the float with
+  // mpq_set_d, which raises GMP's invalid-operation exception (SIGFPE): not run (reported as an observation)
+  if ((NT<T1>::is_float && NT<T2>::is_gmp && a.kind != 0) || (NT<T2>::is_float && NT<T1>::is_gmp && b.kind != 0)) { counts["compare-skipped-float-special-vs-gmp"]++; return; }
   bool nan = a.kind == 2 || b.kind == 2;
   int c = nan ? 0 : cmp_ext_xv(a, b);
   bool want[6] = { !nan && c == 0, nan || c != 0, !nan && c < 0, !nan && c <= 0, !nan && c > 0, !nan && c >= 0 };
@@ -519,13 +553,13 @@ static void cmp_one(const T1& x, const XV& a, const T2& y, const XV& b) {
   counts["compare"] += 6;
   for (int k = 0; k < 6; ++k) if (got[k] != want[k]) {
     std::ostringstream o; o << show(a) << " " << show(b);
-    fail("compare", names[k], NT<T1>::name(), NT<T2>::name(), cmp_class<T1, T2>(a, b), 0, o.str(), got[k] ? "true" : "false", "comparison-differs-from-exact");
+    fail("compare", names[k], NT<T1>::name(), NT<T2>::name(), cmp_class<T1, T2>(names[k], a, b), 0, o.str(), got[k] ? "true" : "false", "comparison-differs-from-exact");
   }
   if (!nan) {
     int g = 0;
     if (Cmp3<T1, T2>::run(x, y, g)) counts["compare"]++; else g = c;
     if (g != c) { std::ostringstream o, gs; o << show(a) << " " << show(b); gs << g;
-      fail("compare", "cmp", NT<T1>::name(), NT<T2>::name(), cmp_class<T1, T2>(a, b), 0, o.str(), gs.str(), "comparison-differs-from-exact"); }
+      fail("compare", "cmp", NT<T1>::name(), NT<T2>::name(), cmp_class<T1, T2>("cmp", a, b), 0, o.str(), gs.str(), "comparison-differs-from-exact"); }
   }
   // the overloaded operators need a Checked_Number on one side
   typedef Checked_Number<T1, Check_Overflow_Policy<T1> > C1;
@@ -536,9 +570,9 @@ static void cmp_one(const T1& x, const XV& a, const T2& y, const XV& b) {
   counts["compare"] += 12;
   for (int k = 0; k < 6; ++k) {
     if (go1[k] != want[k]) { std::ostringstream o; o << show(a) << " " << show(b);
-      fail("compare", std::string(onames[k]) + "(checked,native)", NT<T1>::name(), NT<T2>::name(), cmp_class<T1, T2>(a, b), 0, o.str(), go1[k] ? "true" : "false", "comparison-differs-from-exact"); }
+      fail("compare", std::string(onames[k]) + "(checked,native)", NT<T1>::name(), NT<T2>::name(), cmp_class<T1, T2>(onames[k], a, b), 0, o.str(), go1[k] ? "true" : "false", "comparison-differs-from-exact"); }
     if (go2[k] != want[k]) { std::ostringstream o; o << show(a) << " " << show(b);
-      fail("compare", std::string(onames[k]) + "(native,checked)", NT<T1>::name(), NT<T2>::name(), cmp_class<T1, T2>(a, b), 0, o.str(), go2[k] ? "true" : "false", "comparison-differs-from-exact"); }
+      fail("compare", std::string(onames[k]) + "(native,checked)", NT<T1>::name(), NT<T2>::name(), cmp_class<T1, T2>(onames[k], a, b), 0, o.str(), go2[k] ? "true" : "false", "comparison-differs-from-exact"); }
   }
 }
 
